@@ -265,7 +265,7 @@ theorem accept_sound {v : Variant} {tr : List Ev} {mf : Sim} (h : accept v tr = 
   · refine acceptFrom_nonempty _ _ _ _ h ?_
     have : init ∈ (close v { states := [init] }).states := by
       simp only [close]
-      exact closure_superset _ _ _ _ (by simp [insertNew])
+      exact closure_superset _ _ _ _ _ (by simp [insertNew])
     intro h0; rw [h0] at this; simp at this
   · intro t ht
     obtain ⟨s0, hs0, htr⟩ := acceptFrom_sound _ _ _ _ h t ht
